@@ -3,10 +3,12 @@ pub mod c02;
 pub mod c03;
 pub mod c04;
 pub mod c05;
+pub mod c06;
 pub mod c09;
 pub mod c10;
 pub mod c11;
 pub mod c12;
+pub mod c13;
 pub mod c14;
 pub mod c15;
 pub mod c20;
@@ -45,10 +47,12 @@ pub fn run(id: &str, report: &mut Report, replay: Option<&str>) {
         "C03" => c03::run(report, replay_val.as_ref()),
         "C04" => c04::run(report, replay_val.as_ref()),
         "C05" => c05::run(report, replay_val.as_ref()),
+        "C06" => c06::run(report, replay_val.as_ref()),
         "C09" => c09::run(report, replay_val.as_ref()),
         "C10" => c10::run(report, replay_val.as_ref()),
         "C11" => c11::run(report, replay_val.as_ref()),
         "C12" => c12::run(report, replay_val.as_ref()),
+        "C13" => c13::run(report, replay_val.as_ref()),
         "C14" => c14::run(report, replay_val.as_ref()),
         "C15" => c15::run(report, replay_val.as_ref()),
         "C20" => c20::run(report, replay_val.as_ref()),
